@@ -1,7 +1,7 @@
 """Task and enum types for the parameter-tree checks (C07, C09, C15).  Importable by fresh
 interpreters and by the deserialiser (`__import__(module)`); `ptasks2` defines same-named classes."""
 import json
-from enum import Enum
+from enum import Enum, IntEnum, StrEnum
 from typing import Any
 
 import labtech
@@ -16,6 +16,29 @@ class Color(Enum):
 class Shade(Enum):
     DARK = 'd'
     LIGHT = 'l'
+
+
+# int- and str-mixin enums: their members are instances of int / str (and == their bare value), yet a
+# parameter holding one is an *enum member* for labtech (immutable_param_value and serialize_value test
+# for Enum before they test for int / str)
+class Verbosity(IntEnum):
+    QUIET = 0
+    LOUD = 1
+
+
+class Retries(int, Enum):
+    NONE = 0
+    ONCE = 1
+
+
+class Dataset(StrEnum):
+    TRAIN = 'train'
+    TEST = 'test'
+
+
+class Split(str, Enum):
+    TRAIN = 'train'
+    TEST = 'test'
 
 
 class JsonCache(BaseCache):
